@@ -404,14 +404,12 @@ def shape_variants(src, fn, kinds):
 
 
 def failing(prop, overlay):
-    mod = importlib.import_module('props.' + prop)
-    ctx = Ctx(prop, Program(overlay=overlay), tier='quick', quiet=True)
-    try:
-        mod.run(ctx)
-    except AnalysisError as e:
-        return ['ANALYSIS-ERROR ' + str(e)[:160]]
-    except Exception as e:
-        return ['INTERNAL %s %s' % (type(e).__name__, str(e)[:160])]
+    from sa.views import evaluate
+    ctx, err, view = evaluate(prop, overlay=overlay, quiet=True)
+    if isinstance(err, AnalysisError):
+        return ['ANALYSIS-ERROR ' + str(err)[:160]]
+    if err is not None:
+        return ['INTERNAL %s %s' % (type(err).__name__, str(err)[:160])]
     keys = sorted({o.key for o in ctx.failures()})
     if not keys and ctx.deficits:
         return ['DEFICIT ' + '; '.join(ctx.deficits)[:200]]
